@@ -236,6 +236,19 @@ def parse_properties(code: str, parse_from=0, parse_to=None) -> list:
                 state.before = parse_from + delimiter + 1
 
     scan(fragment, scan_callback)
+
+    name = state.pending_name
+    if name and not state.nested and name[2] != -1 and fragment[name[2]:name[2] + 1] == ':':
+        # Last property has a colon but neither a value nor a terminator
+        # (`a { color: }`): the fragment ends before the closing brace, so the
+        # scanner reports the name only. Create property with empty value
+        # located at the end of the fragment, where its terminator would be.
+        # A name flushed by `;` (`a { color; }`) has no colon and is not a property
+        value_pos = len(fragment)
+        result.append(
+            CSSProperty(fragment, name, state.before,
+                        value_pos, value_pos, -1, parse_from))
+
     return result
 
 
